@@ -54,3 +54,78 @@
   (and (> p 44) (magicEndAt f p)
        (rootFramed f p (s64 (fbe64 f (- p 24))) (fbe32 f (- p 16)))))
 ;@spec validRootEndingAt smt=validRootEndingAt args=(Array_Int_Int),Int res=Bool
+
+; ---- persisted locations ----
+(define-fun emptyLoc ((O (Array Int Int)) (L (Array Int Int)) (p Int)) Bool
+  (or (= p 0) (and (= (select O p) 0) (= (select L p) 0))))
+;@spec emptyLoc smt=emptyLoc args=Int res=Bool heap=ploc.Offset,ploc.Length
+; offset / length of a possibly nil location (nil reads as {0,0})
+(define-fun locOff ((O (Array Int Int)) (p Int)) Int (ite (= p 0) 0 (select O p)))
+(define-fun locLen ((L (Array Int Int)) (p Int)) Int (ite (= p 0) 0 (select L p)))
+;@spec locOff smt=locOff args=Int res=Int heap=ploc.Offset
+;@spec locLen smt=locLen args=Int res=Int heap=ploc.Length
+(define-fun u64of ((x Int)) Int (ite (>= x 0) x (+ x 18446744073709551616)))
+;@spec u64of smt=u64of args=Int res=Int
+
+(define-fun plocRecAt ((f (Array Int Int)) (o Int) (off Int) (len Int)) Bool
+  (and (= (fbe64 f o) (u64of off)) (= (fbe32 f (+ o 8)) len)))
+;@spec plocRecAt smt=plocRecAt args=(Array_Int_Int),Int,Int,Int res=Bool
+
+; ---- node record (52 bytes) at offset o of file content f ----
+; 3 x (i64 offset, u32 length) for item, left, right (all-zero for absent), u64 numNodes, u64 numBytes
+(define-fun nodeRecAt ((f (Array Int Int)) (o Int) (io Int) (il Int) (lo Int) (ll Int) (ro Int) (rl Int) (nn Int) (nb Int)) Bool
+  (and (= (fbe64 f o) (u64of io)) (= (fbe32 f (+ o 8)) il)
+       (= (fbe64 f (+ o 12)) (u64of lo)) (= (fbe32 f (+ o 20)) ll)
+       (= (fbe64 f (+ o 24)) (u64of ro)) (= (fbe32 f (+ o 32)) rl)
+       (= (fbe64 f (+ o 36)) nn) (= (fbe64 f (+ o 44)) nb)))
+;@spec nodeRecAt smt=nodeRecAt args=(Array_Int_Int),Int,Int,Int,Int,Int,Int,Int,Int,Int res=Bool
+
+; bytes of f below position n are those of g
+(define-fun samePrefix ((f (Array Int Int)) (g (Array Int Int)) (n Int)) Bool
+  (forall ((i Int)) (! (=> (< i n) (= (select f i) (select g i))) :pattern ((select f i)))))
+;@spec samePrefix smt=samePrefix args=(Array_Int_Int),(Array_Int_Int),Int res=Bool
+
+; ---- value bytes (C19) ----
+; isValueByte f i: byte i of file content f belongs to the value part of some item record.
+(declare-fun isValueByte ((Array Int Int) Int) Bool)
+; number of value bytes in [off, off+n); vwit names one when there is any (Skolem witness)
+(declare-fun valueOverlap ((Array Int Int) Int Int) Int)
+(declare-fun vwit ((Array Int Int) Int Int) Int)
+(assert (forall ((f (Array Int Int)) (off Int) (n Int))
+  (! (and (>= (valueOverlap f off n) 0)
+          (=> (> (valueOverlap f off n) 0)
+              (and (<= off (vwit f off n)) (< (vwit f off n) (+ off n)) (isValueByte f (vwit f off n)))))
+     :pattern ((valueOverlap f off n)))))
+;@spec valueOverlap smt=valueOverlap args=(Array_Int_Int),Int,Int res=Int
+;@spec isValueByte smt=isValueByte args=(Array_Int_Int),Int res=Bool
+; an item record starts at o: its header and key bytes are not value bytes (records do not overlap)
+(define-fun itemHeadAt ((f (Array Int Int)) (o Int)) Bool
+  (forall ((i Int)) (! (=> (and (<= o i) (< i (+ o 16 (fbe32 f (+ o 4))))) (not (isValueByte f i))) :pattern ((isValueByte f i)))))
+;@spec itemHeadAt smt=itemHeadAt args=(Array_Int_Int),Int res=Bool
+; no value byte in [lo, hi)
+(define-fun noValueIn ((f (Array Int Int)) (lo Int) (hi Int)) Bool
+  (forall ((i Int)) (! (=> (and (<= lo i) (< i hi)) (not (isValueByte f i))) :pattern ((isValueByte f i)))))
+;@spec noValueIn smt=noValueIn args=(Array_Int_Int),Int,Int res=Bool
+
+; on-disk value length chosen by an installed ItemValLength callback (a pure function of the item, A9)
+(declare-fun cbvlen (Int) Int)
+;@spec cbvlen smt=cbvlen args=Int res=Int
+
+; ---- item record at offset o of file content f ----
+; u32 total length, u32 key length, u32 value length, i32 priority, key bytes, value bytes
+(define-fun itemHdrAt ((f (Array Int Int)) (o Int) (total Int) (klen Int) (vlen Int) (pri Int)) Bool
+  (and (= (fbe32 f o) total) (= (fbe32 f (+ o 4)) klen) (= (fbe32 f (+ o 8)) vlen)
+       (= (fbe32 f (+ o 12)) (ite (>= pri 0) pri (+ pri 4294967296)))))
+;@spec itemHdrAt smt=itemHdrAt args=(Array_Int_Int),Int,Int,Int,Int,Int res=Bool
+
+; on-disk value length of item i in store s: the ItemValLength callback's answer if installed, else len(i.Val)
+(define-fun vlenOf ((CB (Array Int Int)) (V (Array Int Slice)) (s Int) (i Int)) Int
+  (ite (= (select CB (|Store.callbacks@| s)) 0) (slen (select V i)) (cbvlen i)))
+;@spec vlenOf smt=vlenOf args=Int,Int res=Int heap=StoreCallbacks.ItemValLength,Item.Val:Slice
+
+; all three reference-count callbacks are installed in store s (C15 premise)
+(define-fun refcb ((A (Array Int Int)) (B (Array Int Int)) (C (Array Int Int)) (s Int)) Bool
+  (and (not (= (select A (|Store.callbacks@| s)) 0)) (not (= (select B (|Store.callbacks@| s)) 0)) (not (= (select C (|Store.callbacks@| s)) 0))))
+;@spec refcb smt=refcb args=Int res=Bool heap=StoreCallbacks.ItemAlloc,StoreCallbacks.ItemAddRef,StoreCallbacks.ItemDecRef
+(define-fun s32 ((u Int)) Int (ite (>= u 2147483648) (- u 4294967296) u))
+;@spec s32 smt=s32 args=Int res=Int
